@@ -66,8 +66,13 @@ NRx == Len(RxNu)
 HomogRx == 1..11
 
 ------------------------------------------------------------------------------
-CompAt(s, k) == LET m == {p \in SpComp[s] : p[1] = k} IN IF m = {} THEN 0 ELSE (CHOOSE p \in m : TRUE)[2]
-Nu(r, s) == LET m == {p \in RxNu[r] : p[1] = s} IN IF m = {} THEN 0 ELSE (CHOOSE p \in m : TRUE)[2]
+CompAt0(s, k) == LET m == {p \in SpComp[s] : p[1] = k} IN IF m = {} THEN 0 ELSE (CHOOSE p \in m : TRUE)[2]
+Nu0(r, s) == LET m == {p \in RxNu[r] : p[1] = s} IN IF m = {} THEN 0 ELSE (CHOOSE p \in m : TRUE)[2]
+\* constant tables (TLC evaluates zero-arity constant definitions once)
+CompTab == [s \in 1..NSp |-> [k \in AllKeys |-> CompAt0(s, k)]]
+NuTab == [r \in 1..NRx |-> [s \in 1..NSp |-> Nu0(r, s)]]
+CompAt(s, k) == CompTab[s][k]
+Nu(r, s) == NuTab[r][s]
 RxSpecies(r) == {p[1] : p \in RxNu[r]}
 IsPhaseTransfer(r) == RxSpecies(r) \cap Solids # {}
 SolidOf(r) == CHOOSE s \in RxSpecies(r) \cap Solids : TRUE
@@ -94,22 +99,33 @@ ASSUME Len(SpComp) = NSp /\ \A r \in 1..NRx : RxSpecies(r) \subseteq 1..NSp
 
 Independent(R) == Rank(NuMatrix(R)) = Cardinality(R)
 
+(* Everything a state machine needs to know about a system, computed once when the system is  *)
+(* chosen: ss species (pool indices, ascending), rs reactions, ks composition keys, nu the     *)
+(* stoichiometry matrix (reactions x species), B the composition matrix (keys x species),     *)
+(* rankB its rank, solid the positions (in ss) of second-phase species.                       *)
+SysInfo(R) ==
+    LET sp == SysSpecies(R)  B == CompMatrix(sp)  ss == SpSeq(R) IN
+    [ss |-> ss, rs |-> RxSeq(R), ks |-> KeySeq(sp), nu |-> NuMatrix(R), B |-> B, rankB |-> Rank(B),
+     solid |-> {j \in 1..Len(ss) : ss[j] \in Solids}]
+NoSys == [ss |-> <<>>, rs |-> <<>>, ks |-> <<>>, nu |-> <<>>, B |-> <<>>, rankB |-> 0, solid |-> {}]
+
 ------------------------------------------------------------------------------
-(* States are functions species -> rational <<n, d>> (defined at least on the system's       *)
-(* species).  Q needs strictly positive concentrations for species with negative nu.          *)
-Qr(r, c) == LET ss == SetToSortSeq(RxSpecies(r), <)
-            IN QProdSeq([j \in 1..Len(ss) |-> QPow(c[ss[j]], Nu(r, ss[j]))])
-IsEq(R, c, K) == \A r \in R : QEq(Qr(r, c), K[r])
-Tot(k, c, sp) == LET ss == SetToSortSeq(sp, <)
-                 IN QSumSeq([j \in 1..Len(ss) |-> QMul(Q(CompAt(ss[j], k)), c[ss[j]])])
-Conserves(sp, c, cinit) == \A k \in KeysOf(sp) : QEq(Tot(k, c, sp), Tot(k, cinit, sp))
-ExpectedZero(R, c, cinit, K) == IsEq(R, c, K) /\ Conserves(SysSpecies(R), c, cinit)
+(* States are sequences of rationals <<n, d>> over the system's species (order ss).           *)
+(* A quotient needs non-zero concentrations where nu < 0.                                     *)
+Quotient(nurow, c) ==
+    LET idx == SetToSortSeq({j \in 1..Len(nurow) : nurow[j] # 0}, <)
+    IN  QProdSeq([t \in 1..Len(idx) |-> QPow(c[idx[t]], nurow[idx[t]])])
+Total(brow, c) ==
+    LET idx == SetToSortSeq({j \in 1..Len(brow) : brow[j] # 0}, <)
+    IN  QSumSeq([t \in 1..Len(idx) |-> QMul(Q(brow[idx[t]]), c[idx[t]])])
+IsEq(sys, c, K) == \A i \in 1..Len(sys.nu) : QEq(Quotient(sys.nu[i], c), K[i])
+Conserves(sys, c, cinit) == \A i \in 1..Len(sys.B) : QEq(Total(sys.B[i], c), Total(sys.B[i], cinit))
+ExpectedZero(sys, c, cinit, K) == IsEq(sys, c, K) /\ Conserves(sys, c, cinit)
 
 \* number of equations of a residual formulation: one per reaction plus one per conservation
 \* relation - all composition keys, or only independent ones when that block is row-reduced
-NPreserv(sp, rrefPreserv) == IF rrefPreserv THEN Rank(CompMatrix(sp)) ELSE Cardinality(KeysOf(sp))
-NEq(R, rrefPreserv) == Cardinality(R) + NPreserv(SysSpecies(R), rrefPreserv)
+NEq(sys, rrefPreserv) == Len(sys.nu) + (IF rrefPreserv THEN sys.rankB ELSE Len(sys.B))
 
-AllPos(sp, c) == \A s \in sp : c[s][1] > 0
-AllNonNegQ(sp, c) == \A s \in sp : c[s][1] >= 0
+AllPos(c) == \A j \in 1..Len(c) : c[j][1] > 0
+AllNonNegQ(c) == \A j \in 1..Len(c) : c[j][1] >= 0
 =============================================================================
